@@ -185,6 +185,10 @@ class SSHKnownHosts:
         """Add an exact match entry"""
 
         for host_pat in pattern.split(','):
+            if not host_pat:
+                # An empty name would match connections with no address
+                continue
+
             if host_pat not in self._exact_entries:
                 self._exact_entries[host_pat] = []
 
